@@ -51,6 +51,11 @@ rand    `-` or `<seed>:<d,d,…>` raw Int63 draws of math/rand after Seed(seed)
         as upstream addresses stand for. answer `ok ups=<dial,…|-> pol=<chain|-> r=<retries> td=<ns> ti=<ns>
         p=<max_fails,fail_duration ns,unhealthy_request_count|->` | `err`
 
+  tim <try_duration ms> <try_interval ms>
+        lb_try_duration / lb_try_interval on the real clock with an upstream whose dial always fails; not modelled:
+        the answer is `ok`, the harness's oracle checks the two load-independent bounds (round trips ≤ ⌈duration /
+        interval⌉ + 1 with the default interval 250 ms; the handler does not give up before the duration is over)
+
 answer  `<r>,<r>,… c=<counter|-> a=<availability bits|->`, r = `nil` | `<i>` | `<i>+ck<id>` | `panic:idx` | `panic:nil`;
         `err:provision` if the policy is rejected; `starved` if the draws run out; `bad-op` if malformed.
 -/
@@ -385,6 +390,11 @@ def showRp : Lr RpCfg → String
       ++ " p=" ++ (if c.passive then toString c.maxFails ++ "," ++ toString c.failDur ++ "," ++ toString c.urc else "-")
 
 def handle : List String → String
+  | ["tim", dms, ims] =>
+    -- lb_try_duration / lb_try_interval on the real clock: checked by the harness's oracle only
+    match num 2000 dms, num 2000 ims with
+    | some d, some _ => if d = 0 then "bad-op" else "ok"
+    | _, _ => "bad-op"
   | ["rp", toks, durs, addrs] =>
     match (toks.splitOn ",").mapM parseTok, parseDurTable durs, parseAddrTable addrs with
     | some toks, some tbl, some atbl =>
